@@ -577,10 +577,23 @@ def type_head(ty):
     return m.group(1).split("::")[-1]
 
 
+_EVENT_NAMES = set() if os.environ.get("VERIF_DUMP_EVENTS") else None
+if _EVENT_NAMES is not None:
+    import atexit
+
+    def _dump_event_names():
+        with open(os.environ["VERIF_DUMP_EVENTS"], "w") as f:
+            for k, n in sorted(_EVENT_NAMES):
+                f.write("%s %s\n" % (k, n))
+    atexit.register(_dump_event_names)
+
+
 class Event:
     __slots__ = ("name", "args", "dest", "where", "kind", "callee")
 
     def __init__(self, name, args, dest, where, kind="call", callee=""):
+        if _EVENT_NAMES is not None:
+            _EVENT_NAMES.add((kind, name))
         self.name = name
         self.args = args
         self.dest = dest
